@@ -38,6 +38,14 @@ def definify(rng, root, p=0.5):
             elif it[0] == "s":
                 rec(it[1])
     rec(root)
+    if defs and rng.random() < 0.3:
+        # a re-definition: the same value (accepted) or another value
+        # (rejected); its name may later be re-cased by a rewrite
+        d = defs[rng.randrange(len(defs))]
+        parts = d.split(None, 2)
+        same = rng.random() < 0.5
+        defs.append("%%define %s %s" % (parts[1], parts[2] if same
+                                        else parts[2] + "x"))
     root["items"][0:0] = [["raw", d] for d in defs]
     return len(defs)
 
@@ -45,11 +53,17 @@ def definify(rng, root, p=0.5):
 def _swapcase(rng, s):
     r = rng.random()
     if r < 0.4:
-        return s.upper()
-    if r < 0.7:
-        return s.lower()
-    return "".join(c.upper() if rng.random() < 0.5 else c.lower()
-                   for c in s)
+        t = s.upper()
+    elif r < 0.7:
+        t = s.lower()
+    else:
+        t = "".join(c.upper() if rng.random() < 0.5 else c.lower()
+                    for c in s)
+    # only a change of letter case: 'ß'.upper() == 'SS' and 'ſ'.upper() ==
+    # 'S' would change the name itself
+    if t.lower() != s.lower():
+        return s
+    return t
 
 
 def _reorder(rng, node, norm):
@@ -146,14 +160,17 @@ def rewrite(rng, root, kinds=None, p_site=0.5):
         body = l.strip()
         ind = l[:len(l) - len(l.lstrip())]
         if "indent" in kinds and rng.random() < p_site:
-            ind = rng.choice(["", " ", "\t", "    ", " \t "])
+            ind = rng.choice(["", " ", "\t", "    ", " \t ", "\x0c", "\x0b ",
+                              "\u00a0", " \r"])
         if "blank" in kinds and rng.random() < p_site * 0.5:
-            out.append(rng.choice(["", "   ", "\t"]))
+            out.append(rng.choice(["", "   ", "\t", "\r", "\x0c", " \x0b"]))
         if "comment" in kinds and rng.random() < p_site * 0.5:
             out.append(rng.choice(["# comment", "  #<x>", "#%define a b",
                                    "\t# k v"]))
         if "trailing" in kinds and rng.random() < p_site:
-            body += rng.choice([" ", "\t", "  \t "])
+            # "\r" makes the line end CRLF; the others are whitespace too
+            body += rng.choice([" ", "\t", "  \t ", "\r", " \r", "\x0c",
+                                "\x0b", "\u00a0", "\u2028"])
         # a value-less key line keeps meaning with trailing blanks; values
         # are never touched (inner whitespace of the body is kept)
         out.append(ind + body)
